@@ -169,6 +169,10 @@ func genClEntry(r *core.Rand) clEntry {
 		}
 	}
 	e.Who = r.Pick(people)
+	if r.Chance(1, 30) {
+		// a trailer line longer than a reader's buffer (a long list of co-maintainers)
+		e.Who = strings.Repeat("Co Maintainer, ", r.Range(280, 600)) + "and Others <team@example.org>"
+	}
 	e.When = time.Unix(int64(r.Intn(2000000000)), 0).In(time.FixedZone("", (r.Intn(27)-12)*1800))
 	return e
 }
@@ -219,6 +223,19 @@ func streamChangelog(g *core.G) {
 		"hello 1.0 unstable\n\n -- A <a@b>  Mon, 02 Jan 2006 15:04:05 -0700\n", "hello (1.0) unstable\n\n  * x\n -- A <a@b> Mon, 02 Jan 2006 15:04:05 -0700\n",
 		"hello (1.0) unstable; urgency=low\n\n  * x\nnot indented\n -- A <a@b>  Mon, 02 Jan 2006 15:04:05 -0700\n", "hello (1.0) u; a=b\n  \n -- A  Mon, 02 Jan 2006 15:04:05 -0700"} {
 		emitChangelog(g, s)
+	}
+	// long histories: total sizes around 1, 16, 17 and 32 MiB (and 64 / 128 MiB in the thorough tier)
+	{
+		e := genClEntry(r)
+		e.Body = []string{"  * Routine upload."}
+		e.Opts = e.Opts[:1]
+		one := renderClEntry(r, e) + "\n"
+		for _, total := range []int{1 << 20, 16<<20 - 100, 17 << 20, 33 << 20} {
+			g.Emit("law-clcount", core.Hex(one), strconv.Itoa(total/len(one)+1))
+		}
+		if g.Thorough {
+			g.Emit("law-clcount", core.Hex(one), strconv.Itoa((130<<20)/len(one)))
+		}
 	}
 	n := g.N(120, 4000)
 	for i := 0; i < n; i++ {
@@ -288,6 +305,19 @@ func streamChangelog(g *core.G) {
 			emitChangelog(g, p)
 			g.Emit("law-cltrunc", core.Hex(p), strconv.Itoa(complete), b01(partial))
 		}
+		// dates that name their zone instead of giving the offset (old changelogs, other tools):
+		// not the Policy format; whatever happens must not depend on the process's local zone
+		if i := strings.LastIndex(text, " +"); i > 0 && r.Chance(1, 3) {
+			for _, z := range []string{"EST", "CET", "UTC", "GMT", "PST", "Z", "+01:00", "(CET)"} {
+				if r.Chance(1, 3) {
+					j := strings.IndexByte(text[i+1:], '\n')
+					if j < 0 {
+						j = len(text) - i - 1
+					}
+					emitChangelog(g, text[:i+1]+z+text[i+1+j:])
+				}
+			}
+		}
 		// malformed header / trailer / date: single edits
 		for k := 0; k < 4; k++ {
 			pos := r.Intn(len(text))
@@ -344,6 +374,20 @@ func expectedClDump(es []clEntry) string {
 }
 
 func init() {
+	// law: a long history comes back whole: `count` copies of an entry (args: entry text, count),
+	// tens of MiB in the thorough tier
+	changelogImpl["law-clcount"] = func(a []string) string {
+		entry := core.MustUnHex(a[0])
+		n, _ := strconv.Atoi(a[1])
+		es, err := changelog.Parse(strings.NewReader(strings.Repeat(entry, n)))
+		if err != nil {
+			return fmt.Sprintf("FAIL %d well-formed entries (%d bytes) rejected: %v", n, n*len(entry), err)
+		}
+		if len(es) != n {
+			return fmt.Sprintf("FAIL %d well-formed entries (%d bytes) in, %d out and no error", n, n*len(entry), len(es))
+		}
+		return "ok"
+	}
 	// law: every entry comes back with the source, version, distributions, options, verbatim
 	// change text, maintainer and timestamp written in it
 	changelogImpl["law-clfaithful"] = func(a []string) string {
